@@ -54,13 +54,13 @@ type refInventory struct {
 }
 
 type renameTable struct {
-	funcAlias  map[*ssa.Function]string // current function -> reference full name
-	funcByRef  map[string]*ssa.Function // reference full name -> current function
-	fieldAlias map[*types.Var]string    // current field -> reference name
-	typeNew2Old map[string]string       // "pkgpath.New" -> "pkgpath.Old"
+	funcAlias   map[*ssa.Function]string // current function -> reference full name
+	funcByRef   map[string]*ssa.Function // reference full name -> current function
+	fieldAlias  map[*types.Var]string    // current field -> reference name
+	typeNew2Old map[string]string        // "pkgpath.New" -> "pkgpath.Old"
 	typeOld2New map[string]string
-	strRepl    [][2]string // (current spelling, reference spelling) for printed names, longest first
-	Notes      []string
+	strRepl     [][2]string // (current spelling, reference spelling) for printed names, longest first
+	Notes       []string
 }
 
 // haveReference: a reference inventory was loaded for this run.
